@@ -298,24 +298,25 @@ func (s *PrefixFS) Lstat(name string) (fs.FileInfo, error) {
 func (s *PrefixFS) Symlink(oldname, newname string) error {
 	// links may be relative paths
 
-	var (
-		err     error
-		oldPath string
-	)
-	if isAbs(oldname) {
-		// absolute path symlink
-		oldPath, err = s.prefixPath(oldname)
-	} else {
-		// relative path symlink
-		_, err = s.prefixPath(filepath.Join(filepath.Dir(newname), oldname))
-		oldPath = oldname
-	}
+	var oldPath string
 
+	newPath, err := s.prefixPath(newname)
 	if err != nil {
 		return &os.LinkError{Op: "symlink", Old: oldname, New: newname, Err: err}
 	}
 
-	newPath, err := s.prefixPath(newname)
+	if isAbs(oldname) {
+		// absolute path symlink
+		oldPath, err = s.prefixPath(oldname)
+	} else {
+		// relative path symlink: the target is resolved starting at the actual
+		// directory of the link, it must not lead out of the prefix from there.
+		if !hasPathPrefix(filepath.Join(filepath.Dir(newPath), oldname), s.prefix) {
+			err = syscall.EPERM
+		}
+		oldPath = oldname
+	}
+
 	if err != nil {
 		return &os.LinkError{Op: "symlink", Old: oldname, New: newname, Err: err}
 	}
